@@ -31,7 +31,7 @@ func runC16(c *Ctx) {
 		if len(calls) != 1 {
 			why = append(why, fmt.Sprintf("%d Backup calls", len(calls)))
 		} else {
-			md := p.TermOf(callCommon(calls[0]).Args[0])
+			md := p.XLocal(p.TermOf(callCommon(calls[0]).Args[0]), cb)
 			ok := md.Op == "call" && md.Fn != nil && md.Fn.Name() == "Sprintf" && len(md.Args) == 2 && md.Args[0].Name == `"%d"` && md.Args[1].Op == "list" && len(md.Args[1].Args) == 1
 			if ok {
 				v := md.Args[1].Args[0]
@@ -165,8 +165,14 @@ func runC16(c *Ctx) {
 				if st, ok := in.(*ssa.Store); ok && st.Val == ssa.Value(info) {
 					if ia, ok := st.Addr.(*ssa.IndexAddr); ok && len(idxTerms) > 0 && p.TermOf(ia.Index).String() == idxTerms[0] {
 						cs := p.CondsAt(st.Block())
+						isCount := func(t *Term) bool { return t.Op == "call" && t.Fn != nil && t.Fn.Name() == "GetCount" }
 						if hasCond(cs, func(k Cond) bool {
-							return k.Pol && k.Atom.Op == "LT" && k.Atom.Args[1].Op == "call" && k.Atom.Args[1].Fn != nil && k.Atom.Args[1].Fn.Name() == "GetCount"
+							if !k.Pol || k.Atom.Op != "LT" {
+								return false
+							}
+							b := k.Atom.Args[1]
+							// i < GetCount(), or i < len(result) with result = make(.., GetCount())
+							return isCount(b) || b.Op == "builtin" && b.Name == "len" && b.Args[0].Op == "alloc" && len(b.Args[0].Args) > 0 && isCount(b.Args[0].Args[0])
 						}) {
 							okStore = true
 						}
